@@ -98,14 +98,17 @@ def is_sym(x):
 
 # --------------------------------------------------------------------------- SBool
 class SBool:
-    __slots__ = ('e', 'vs')
+    """tie: for comparisons of two symbolic instants, the condition 'both are equal' (see
+    Explorer.branch: exact ties between symbolic instants are assumed away)"""
+    __slots__ = ('e', 'vs', 'tie')
 
-    def __init__(self, e, vs):
+    def __init__(self, e, vs, tie=None):
         self.e = e
         self.vs = vs
+        self.tie = tie
 
     def __bool__(self):
-        return CUR.branch(self.e, self.vs)
+        return CUR.branch(self.e, self.vs, self.tie)
 
     @staticmethod
     def _co(o):
@@ -140,7 +143,7 @@ class SBool:
     __rxor__ = __xor__
 
     def __invert__(self):
-        return SBool(z3.Not(self.e), self.vs)
+        return SBool(z3.Not(self.e), self.vs, self.tie)
 
     def __eq__(self, o):
         c = SBool._co(o)
@@ -712,7 +715,10 @@ class STime:
             return NotImplemented
         if self.c is not None and o.c is not None:
             return STime(c=fn(self.c, o.c))
-        return STime(e=zfn(self.expr(), o.expr()), vs=self.vs | o.vs)
+        e = z3.simplify(zfn(self.expr(), o.expr()))
+        if z3.is_rational_value(e):
+            return STime(c=Fraction(e.numerator_as_long(), e.denominator_as_long()))
+        return STime(e=e, vs=self.vs | o.vs)
 
     def __add__(self, o):
         return self._bin(o, lambda a, b: a + b, lambda a, b: a + b)
@@ -748,7 +754,8 @@ class STime:
             return NotImplemented
         if self.c is not None and o2.c is not None:
             return fn(self.c, o2.c)
-        return SBool(zfn(self.expr(), o2.expr()), self.vs | o2.vs)
+        a, b = self.expr(), o2.expr()
+        return SBool(zfn(a, b), self.vs | o2.vs, a == b)
 
     def __lt__(self, o):
         return self._cmp(o, lambda a, b: a < b, lambda a, b: a < b)
@@ -1016,9 +1023,24 @@ class Explorer:
             return ent
         return None
 
-    def branch(self, e, vs):
+    def branch(self, e, vs, tie=None):
         if self.concrete:
             raise EngineError("symbolic branch in concrete mode")
+        if tie is not None:
+            # an exact coincidence of two symbolic instants has measure zero; with the clock frozen
+            # during a pass it would make the job loop re-enter at the same instant.  Assumed away
+            # whenever it can be avoided (stated in DESIGN 3 and in the evidence).
+            ent = self._next('tie')
+            if ent is not None:
+                if ent[1]:
+                    self._add(z3.Not(tie), vs)
+            else:
+                nt = z3.Not(tie)
+                ok = self._check(self._slice(vs) + [nt])
+                self.trace.append(('tie', ok))
+                self.pos += 1
+                if ok:
+                    self._add(nt, vs)
         ent = self._next('br')
         if ent is not None:
             d = ent[1]
